@@ -1,6 +1,6 @@
 (** Property C09 — results do not depend on map iteration or key insertion order. *)
 From Coq Require Import String List ZArith Bool Permutation.
-From Zog Require Import Model.Val Model.Engine Spec.Sem Spec.Satisfies Proofs.Refine Proofs.Indep Proofs.DeepOrder.
+From Zog Require Import Model.Val Model.Engine Spec.Sem Spec.Satisfies Proofs.Refine Proofs.Indep Proofs.DeepOrder Model.Fmt Gen.Tables Proofs.FmtOrderP.
 Import ListNotations.
 
 (** A struct schema holds its fields in visit order.  For every permutation of that order: the
@@ -55,3 +55,29 @@ Print Assumptions C09_error_state_irrelevant_without_transforms.
 Theorem C09_engine_computes_semantics : forall m s dat d, run m s dat d = sem_run m s dat d.
 Proof. exact run_is_sem_run. Qed.
 Print Assumptions C09_engine_computes_semantics.
+
+(** The messages: conf.NewDefaultFormatter ranges over the issue's Params, a Go map, and replaces one
+    placeholder per parameter.  For every shipped language map, type and code, every parameter list
+    without a repeated key whose keys and rendered values contain no braces, and every other order
+    of the same parameters, the message is the same.  (Every shipped template is a sequence of
+    brace-free text and {{name}} placeholders — checked over the tables regenerated from the code —
+    and on such templates sequential replacement is one simultaneous substitution.) *)
+Theorem C09_message_independent_of_parameter_order : forall lang m dtype code ps ps' value,
+  In (lang, m) langs -> Permutation ps ps' -> NoDup (map fst ps) -> params_ok ps = true ->
+  default_format m dtype code ps value = default_format m dtype code ps' value.
+Proof. exact default_format_order_independent. Qed.
+Print Assumptions C09_message_independent_of_parameter_order.
+
+Theorem C09_sequential_replacement_is_simultaneous_substitution : forall ps ts, params_ok ps = true -> forallb tok_ok ts = true ->
+  seq_format ps (render ts) = render (map (subst_all ps) ts).
+Proof. exact sequential_is_simultaneous. Qed.
+Print Assumptions C09_sequential_replacement_is_simultaneous_substitution.
+
+(** PARTIAL by necessity: without the hypothesis on braces the statement is false of the code — a
+    parameter value that spells another parameter's placeholder is or is not substituted depending
+    on the order in which the map is ranged over (only reachable through the Params option with
+    such a value; no built-in test has two parameters). *)
+Theorem C09_message_order_refuted_without_hypotheses :
+  seq_format [("a", "{{b}}"); ("b", "x")] "{{a}}" = "x" /\ seq_format [("b", "x"); ("a", "{{b}}")] "{{a}}" = "{{b}}".
+Proof. exact sequential_replacement_is_order_dependent. Qed.
+Print Assumptions C09_message_order_refuted_without_hypotheses.
